@@ -755,6 +755,7 @@ package lang
 //@   ensures[C09] array-padding-distinct: old(v.Tag) == ValueArray && err == nil && v != &result0.Value ==> (forall j int, k int :: len(old(v.Array)) <= j && j < k && k < len(v.Array) ==> v.Array[j] != v.Array[k])
 //@   ensures[C09] object-stored: old(v.Tag) == ValueObj ==> err == nil && result0 == cell && has(*v.Obj, specStr(member)) && (*v.Obj)[specStr(member)] == cell
 //@   ensures[C09] object-others-kept: old(v.Tag) == ValueObj ==> (forall k string :: k != specStr(member) ==> (has(*v.Obj, k) <==> old(has(*v.Obj, k))) && (*v.Obj)[k] == old((*v.Obj)[k]))
+//@   ensures[C09] growth-visible-through-every-reference: old(v.Tag) == ValueArray && err == nil && v != &result0.Value ==> (forall p *Value :: old(allocated(p) && p.Tag == ValueArray && sameBacking(p.Array, v.Array) && len(p.Array) == len(v.Array)) ==> len(p.Array) == len(v.Array))
 //@   modifies v.Array if v.Tag == ValueArray
 //@   modifies spare(v.Array) if v.Tag == ValueArray
 //@   modifies v.Array[effIndex(len(v.Array), member)].Value if v.Tag == ValueArray && member.Tag == ValueNum && 0 <= effIndex(len(v.Array), member) && effIndex(len(v.Array), member) < len(v.Array)
@@ -1171,6 +1172,7 @@ package lang
 //@   ensures[C15] appends-one: this != nil && err == nil ==> result0 == this && len(this.Array) == len(old(this.Array)) + 1 && fresh(this.Array[len(old(this.Array))]) && this.Array[len(old(this.Array))].Value == old(*v[0])
 //@   ensures[C15] keeps-earlier-elements: this != nil && err == nil ==> (forall k int :: 0 <= k && k < len(old(this.Array)) ==> this.Array[k] == old(this.Array[k]))
 //@   ensures[C16] no-receiver: this == nil ==> err == nil && result0 == nil
+//@   ensures[C09] visible-through-every-reference: this != nil && err == nil ==> (forall p *Value :: old(allocated(p) && p.Tag == ValueArray && sameBacking(p.Array, this.Array) && len(p.Array) == len(this.Array)) ==> len(p.Array) == len(this.Array))
 //@   modifies this.Array, spare(this.Array)
 
 // array.pop()
@@ -1180,6 +1182,7 @@ package lang
 //@   ensures[C15] empty-yields-null: this != nil && err == nil && len(old(this.Array)) == 0 ==> result0 != nil && result0.Tag == ValueNil && this.Array == old(this.Array)
 //@   ensures[C15] removes-last: this != nil && err == nil && len(old(this.Array)) > 0 ==> result0 != nil && *result0 == old(this.Array[len(this.Array)-1].Value) && len(this.Array) == len(old(this.Array)) - 1 && sameBacking(this.Array, old(this.Array))
 //@   ensures[C15] refused-pop-changes-nothing: err != nil ==> this.Array == old(this.Array)
+//@   ensures[C09] visible-through-every-reference: this != nil && err == nil ==> (forall p *Value :: old(allocated(p) && p.Tag == ValueArray && sameBacking(p.Array, this.Array) && len(p.Array) == len(this.Array)) ==> len(p.Array) == len(this.Array))
 //@   modifies this.Array
 
 // array.popfirst()
@@ -1189,6 +1192,7 @@ package lang
 //@   ensures[C15] empty-yields-null: this != nil && err == nil && len(old(this.Array)) == 0 ==> result0 != nil && result0.Tag == ValueNil && this.Array == old(this.Array)
 //@   ensures[C15] removes-first: this != nil && err == nil && len(old(this.Array)) > 0 ==> result0 != nil && *result0 == old(this.Array[0].Value) && len(this.Array) == len(old(this.Array)) - 1 && (forall k int :: 0 <= k && k < len(this.Array) ==> this.Array[k] == old(this.Array[k+1]))
 //@   ensures[C15] refused-pop-changes-nothing: err != nil ==> this.Array == old(this.Array)
+//@   ensures[C09] visible-through-every-reference: this != nil && err == nil ==> (forall p *Value :: old(allocated(p) && p.Tag == ValueArray && sameBacking(p.Array, this.Array) && len(p.Array) == len(this.Array)) ==> len(p.Array) == len(this.Array))
 //@   modifies this.Array
 
 // array.contains(x): agrees with == applied to each element in order
